@@ -82,30 +82,30 @@ func mustSet(w *W, o interface {
 func dur(ns int64) time.Duration { return time.Duration(ns) }
 
 var protoCtors = map[string]func() mangos.ProtocolBase{
-	"bus": func() mangos.ProtocolBase { return bus.NewProtocol() },
-	"pair": func() mangos.ProtocolBase { return pair.NewProtocol() },
-	"pair1": func() mangos.ProtocolBase { return pair1.NewProtocol() },
-	"pub": func() mangos.ProtocolBase { return pub.NewProtocol() },
-	"pull": func() mangos.ProtocolBase { return pull.NewProtocol() },
-	"push": func() mangos.ProtocolBase { return push.NewProtocol() },
-	"rep": func() mangos.ProtocolBase { return rep.NewProtocol() },
-	"req": func() mangos.ProtocolBase { return req.NewProtocol() },
-	"respondent": func() mangos.ProtocolBase { return respondent.NewProtocol() },
-	"star": func() mangos.ProtocolBase { return star.NewProtocol() },
-	"sub": func() mangos.ProtocolBase { return sub.NewProtocol() },
-	"surveyor": func() mangos.ProtocolBase { return surveyor.NewProtocol() },
-	"xbus": func() mangos.ProtocolBase { return xbus.NewProtocol() },
-	"xpair": func() mangos.ProtocolBase { return xpair.NewProtocol() },
-	"xpair1": func() mangos.ProtocolBase { return xpair1.NewProtocol() },
-	"xpub": func() mangos.ProtocolBase { return xpub.NewProtocol() },
-	"xpull": func() mangos.ProtocolBase { return xpull.NewProtocol() },
-	"xpush": func() mangos.ProtocolBase { return xpush.NewProtocol() },
-	"xrep": func() mangos.ProtocolBase { return xrep.NewProtocol() },
-	"xreq": func() mangos.ProtocolBase { return xreq.NewProtocol() },
+	"bus":         func() mangos.ProtocolBase { return bus.NewProtocol() },
+	"pair":        func() mangos.ProtocolBase { return pair.NewProtocol() },
+	"pair1":       func() mangos.ProtocolBase { return pair1.NewProtocol() },
+	"pub":         func() mangos.ProtocolBase { return pub.NewProtocol() },
+	"pull":        func() mangos.ProtocolBase { return pull.NewProtocol() },
+	"push":        func() mangos.ProtocolBase { return push.NewProtocol() },
+	"rep":         func() mangos.ProtocolBase { return rep.NewProtocol() },
+	"req":         func() mangos.ProtocolBase { return req.NewProtocol() },
+	"respondent":  func() mangos.ProtocolBase { return respondent.NewProtocol() },
+	"star":        func() mangos.ProtocolBase { return star.NewProtocol() },
+	"sub":         func() mangos.ProtocolBase { return sub.NewProtocol() },
+	"surveyor":    func() mangos.ProtocolBase { return surveyor.NewProtocol() },
+	"xbus":        func() mangos.ProtocolBase { return xbus.NewProtocol() },
+	"xpair":       func() mangos.ProtocolBase { return xpair.NewProtocol() },
+	"xpair1":      func() mangos.ProtocolBase { return xpair1.NewProtocol() },
+	"xpub":        func() mangos.ProtocolBase { return xpub.NewProtocol() },
+	"xpull":       func() mangos.ProtocolBase { return xpull.NewProtocol() },
+	"xpush":       func() mangos.ProtocolBase { return xpush.NewProtocol() },
+	"xrep":        func() mangos.ProtocolBase { return xrep.NewProtocol() },
+	"xreq":        func() mangos.ProtocolBase { return xreq.NewProtocol() },
 	"xrespondent": func() mangos.ProtocolBase { return xrespondent.NewProtocol() },
-	"xstar": func() mangos.ProtocolBase { return xstar.NewProtocol() },
-	"xsub": func() mangos.ProtocolBase { return xsub.NewProtocol() },
-	"xsurveyor": func() mangos.ProtocolBase { return xsurveyor.NewProtocol() },
+	"xstar":       func() mangos.ProtocolBase { return xstar.NewProtocol() },
+	"xsub":        func() mangos.ProtocolBase { return xsub.NewProtocol() },
+	"xsurveyor":   func() mangos.ProtocolBase { return xsurveyor.NewProtocol() },
 }
 
 // SendBody sends body on s; raw sockets get a well-formed header.
